@@ -692,8 +692,8 @@ class PSFPhotometry(ModelImageMixin):
 
         if 'group_id' in init_params.colnames:
             # grouper is ignored if group_id is input in init_params
-            self.grouper = None
-        if self.grouper is not None:
+            group_id = init_params['group_id']
+        elif self.grouper is not None:
             group_id = self.grouper(init_params[xcolname],
                                     init_params[ycolname])
         else:
